@@ -1,7 +1,7 @@
 #!/bin/sh
 # usage: tools/adopt_seed.sh C12 [suffix] : confirm the change in /tmp/wt/C12 and store it as seeded/C12-<suffix>/
 id="$1"; n="${2:-1}"
-wt=/tmp/wt/$id
+wt=${WTROOT:-/tmp/wt}/$id
 out=$(sh "$(dirname "$0")/confirm_seed.sh" "$wt")
 echo "$id: $out"
 d="/verif/seeded/$id-$n"
